@@ -2,7 +2,7 @@ package checks
 
 // C08 — ping/pong and the closing handshake follow the RFC 6455 state machine.
 //
-// Engine E2: BFS over peer events {data, ping(p), ping(""), pong, close(1000), close(3001,"r"), close(no
+// Engine E2: BFS over peer events {data, ping(125 bytes), ping(""), pong, close(1000), close(3001, 123-byte reason), close(no
 // payload), close(1 byte), close(1004), close(bad UTF-8 reason), RSV1 frame, transport EOF, transport error}
 // and local calls {NextFrame, AsyncNextFrame, NextMessage, AsyncNextMessage, Write, AsyncWrite, Flush,
 // AsyncFlush, Close, AsyncClose}; the state is a real Stream on the scripted transport, rebuilt by replaying
@@ -307,14 +307,16 @@ func smOps() []smOp {
 	}
 	enc := func(f wsref.Frame) []byte { return f.Encode() }
 	peer("data", munit{kind: "data", payload: "d"}, enc(wsref.Frame{Fin: true, Op: wsref.OpText, Payload: []byte("d")}))
-	peer("ping(p)", munit{kind: "ping", payload: "p"}, enc(wsref.Frame{Fin: true, Op: wsref.OpPing, Payload: []byte("p")}))
+	// the two pings are the extremes of the legal size class: empty and 125 bytes (the largest control payload)
+	big := strings.Repeat("p", 125)
+	peer("ping(125 bytes)", munit{kind: "ping", payload: big}, enc(wsref.Frame{Fin: true, Op: wsref.OpPing, Payload: []byte(big)}))
 	peer("ping()", munit{kind: "ping", payload: ""}, enc(wsref.Frame{Fin: true, Op: wsref.OpPing}))
 	peer("pong", munit{kind: "pong", payload: "q"}, enc(wsref.Frame{Fin: true, Op: wsref.OpPong, Payload: []byte("q")}))
 	cl := func(label string, payload []byte, reply uint16) {
 		peer(label, munit{kind: "close", payload: string(payload), reply: reply}, enc(wsref.Frame{Fin: true, Op: wsref.OpClose, Payload: payload}))
 	}
 	cl("close(1000)", wsref.ClosePayload(1000, ""), 1000)
-	cl("close(3001,r)", wsref.ClosePayload(3001, "r"), 3001)
+	cl("close(3001, 123-byte reason)", wsref.ClosePayload(3001, strings.Repeat("r", 123)), 3001) // 125 bytes: the largest legal close payload
 	cl("close(no payload)", nil, 1000)
 	cl("close(1 byte)", []byte{3}, 1002)
 	cl("close(1004)", wsref.ClosePayload(1004, ""), 1002)
